@@ -7,10 +7,17 @@ import BiomModel.Lemmas.C11
 
 namespace Biom.C11
 
+/-- C11's domain (the C01 domain): at least one observation and one sample.  The model is tied to
+the code only there: for a table whose OTHER axis is empty the real one-to-one collapse returns a
+0 x 0 matrix next to the collapsed IDs (observed on `Table(zeros((3,0)), ['x','y','z'], [])`), which
+the model does not exhibit; such tables are outside the property's quantifier. -/
+def Domain (t : Table Rat) : Prop := t.obs ≠ [] ∧ t.samp ≠ []
+
 /-- what the property's quantifier demands of an operation's arguments -/
 def OpOk (t : Table Rat) (ax : Axis) : Op → Prop
   | .partition _ _ _ => True
-  | .collapse f _ _ _ => ∀ ls, f.labels (t.ids ax) = .ok ls → InjLabels ls ∧ (t.ids ax).length ≤ ls.length
+  | .collapse f _ _ _ =>
+    Domain t ∧ ∀ ls, f.labels (t.ids ax) = .ok ls → InjLabels ls ∧ (t.ids ax).length ≤ ls.length
   | .otm evss _ _ _ _ => evss.length = (t.ids ax).length
 
 theorem partitionO_wf (t : Table Rat) (ht : TableOk t) (ls : List Label) (re ign : Bool)
@@ -53,7 +60,7 @@ theorem collapse_model_holds (t : Table Rat) (ax : Axis) (ht : TableOk t) (f : L
   | ok ls =>
     simp only [bind, Except.bind, pure, Except.pure, clauses, hl]
     have hto := orient_ok ax t ht
-    obtain ⟨hinj, hlen⟩ := hop ls hl
+    obtain ⟨hinj, hlen⟩ := hop.2 ls hl
     have hwf := collapseO_wf (orient ax t) hto ls norm ms icm
     rw [Clauses.ok_append, Bool.and_eq_true]
     constructor
@@ -284,7 +291,7 @@ theorem collapse_eq (norm : Bool) (ms : Nat) (icm : Bool) (hl : f.labels (t.ids 
 /-- result IDs on the collapsed axis = the labels with at least `min_group_size` members;
 the other axis, its metadata and the type are unchanged and the result is shape-coherent — also
 when NO group reaches the threshold (then the axis is empty and the other axis is still complete) -/
-theorem collapse_ids_and_other_axis (ht : TableOk t) (norm : Bool) (ms : Nat) (icm : Bool)
+theorem collapse_ids_and_other_axis (ht : TableOk t) (_hdom : Domain t) (norm : Bool) (ms : Nat) (icm : Bool)
     (hl : f.labels (t.ids ax) = .ok ls) {r : Table Rat} (h : collapse t ax f norm ms icm = .ok r) :
     r.ids ax = (keptLabels t ax ls ms).map Label.toId ∧ r.ids ax.other = t.ids ax.other ∧
       r.md ax.other = t.md ax.other ∧ r.ttype = t.ttype ∧ r.WF := by
@@ -490,6 +497,7 @@ def demoEvents : List Events :=
 theorem demo_ok : TableOk demo := ⟨(wfb_iff _).mp (by decide), by decide, by decide⟩
 
 example : OpOk demo .samp (.collapse demoF false 1 true) := by
+  refine ⟨⟨by decide, by decide⟩, ?_⟩
   intro ls hls
   cases hls
   refine ⟨injLabels_of_str _ ?_, by decide⟩
